@@ -104,8 +104,9 @@ Theorem C19_concat_expand : forall input ps m,
 Proof. exact concat_expand_all. Qed.
 Print Assumptions C19_concat_expand.
 
-(* every other sensor (float / int arrays, categorical data) present in an arbitrary subset of the parts: the whole
-   presents the concatenation of the parts' values with the dummy value of the sensor's type (NaN, -1, '', False; C12)
+(* every other sensor (float / SIGNED int arrays, categorical data of float / signed integer / string / boolean /
+   object type; unsigned integer types: see C19_unsigned_sensor_* below) present in an arbitrary subset of the parts:
+   the whole presents the concatenation of the parts' values with the dummy value of the sensor's type (NaN, -1, '', False; C12)
    over the parts that lack it; KeyError iff no part has it; it only fails for a sensor that is categorical in one
    part and a plain array in another *)
 Theorem C19_concat_expand_sensors : forall input ps m name ar,
@@ -129,6 +130,32 @@ Theorem C19_dummy_is_C12s : forall dt,
                   end.
 Proof. exact dummy_code_def. Qed.
 Print Assumptions C19_dummy_is_C12s.
+
+(* FINDING C19-F4 (open).  [get_sensor_u] = ConcatenatedSensorCache.get including sensors whose common dtype is an
+   unsigned integer type ([uns]): when some part lacks such a sensor, dummy_sensor_getter evaluates
+   np.dtype(dtype).type(-1), which NumPy >= 2 refuses (OverflowError), so the sensor of the concatenation cannot be
+   read although the property asks for the concatenation with dummy fill.  _refuted: a concrete two-part
+   concatenation; _partial: C19_concat_expand_sensors for ConcatenatedSensorCache.get under the guard "not an
+   unsigned type, or no part lacks the sensor". *)
+Theorem C19_unsigned_sensor_refuted :
+  exists input ps m name l,
+    sort_parts input = Some ps /\ Forall part_ok ps /\ concat_open input = COk m /\ Forall (sens_ok name) ps /\
+    mixed_kinds name ps = false /\ spec_sensor ps name = Some l /\
+    get_sensor_u (m_parts m) name false true = RFail.
+Proof. exact ex_unsigned_refuted. Qed.
+Print Assumptions C19_unsigned_sensor_refuted.
+
+Theorem C19_unsigned_sensor_partial : forall input ps m name ar uns,
+  sort_parts input = Some ps -> Forall part_ok ps -> concat_open input = COk m -> Forall (sens_ok name) ps ->
+  uns = false \/ lacks_some ps name = false ->
+  match get_sensor_u (m_parts m) name ar uns with
+  | RNum l => spec_sensor ps name = Some l
+  | RCat c => spec_sensor ps name = Some (zexpand c) /\ cd_ok (list_sum (map nT ps)) c
+  | RKeyError => spec_sensor ps name = None
+  | RFail => mixed_kinds name ps = true
+  end.
+Proof. exact unsigned_sensor_partial. Qed.
+Print Assumptions C19_unsigned_sensor_partial.
 
 (* cache[name] under the time selection: every part applies its own slice of the global mask; glued, that is the
    global mask applied to the whole series; and the slices tile the mask *)
